@@ -154,6 +154,9 @@ IMPORTS = {
         ('C12', ['C12.e'], 'the request-target host is decoded with the transaction\'s own decoder configuration before it is compared with Host (c11-8)'),
     ],
     'C13': [
+        ('C16', ['C16.h'],
+         'a target that starts with / is never given an authority: only the method CONNECT, compared byte for byte, sends the target to the '
+         'authority splitter (c13-17: "connect /a/b" reported with hostname "/a/b")'),
         ('C17', ['C17.b'], 'the numeric port is the decimal value of the whole port text: the integer parser accepts only at the end of the text, without wrapping (c13-5)'),
     ],
     'C14': [
@@ -171,6 +174,9 @@ IMPORTS = {
         ('C03', ['C03.b', 'C03.c', 'C03.h'],
          'no request byte skipped or parsed twice: the probed line is read through the consolidated view and the carry buffer restarts the consumer '
          'position on every append (c16-4, c16-8, c16-10)'),
+        ('C05', ['C05.g'],
+         'callbacks of the CONNECT transaction get the bytes of the CONNECT message only: the header-data receiver is closed when the HEADERS '
+         'hook runs, body or not - left open it is fed the tunnel payload (c16-16)'),
         ('C09', ['C09.c'], 'the request side reports DATA_OTHER while it waits for the answer to CONNECT: status assigned == value returned (c16-11)'),
         ('C17', ['C17.b'], 'a 2xx answer is recognised by its status number: valid iff 100..999, never lost with the protocol check (c16-7)'),
     ],
